@@ -114,6 +114,8 @@ func Harness_C06_torn_tail_prefix_recoverable() {
 		// the torn record may be reflected in its own entry, and only there
 		own := c06Row(rows, tornName)
 		vm.Assert("C06.cut_in_content_own_row_points_at_torn_record", own != nil && (own.Record*20+own.Block)*512 == last.Start)
+		// ... reflected in the entry's metadata, not by making the entry vanish
+		vm.Assert("C06.cut_in_content_entry_still_exists", own != nil && own.Deleted != 1)
 		// restoring the torn entry reports an error
 		ferr := recovery.Fetch(
 			config.DriveReaderConfig{Drive: t.OpenRead(), DriveIsRegular: true}, nil,
